@@ -52,6 +52,10 @@ class Defect:
         self.sector = None           # name of the state that must be reported as tachyonic ("<sector> tachyon")
         self.pairs_in_quick = True   # False: enumerated alone in the quick tier, in all pairs in the thorough tier
         self.assumes = ()            # parameters whose valid base value the realisation relies on
+        # spectra in which the defect is present: "res" = spectrum with tan(beta)-resummed Yukawa couplings
+        # (always built by the setup), "nonres" = spectrum rebuilt with tree-level Yukawa couplings by the
+        # *_non_tan_beta_resummed functions / GM2CalcConfig[2] = 0
+        self.paths = ("res", "nonres")
 
     def kinds(self):
         return (self.kind,) + self.also
@@ -131,6 +135,26 @@ def mssm_defects():
          "tachyonic stau, dominant negative eigenvalue (tan(beta) = 1/2, msl3 = 20, mse3 = 40)")
     tach("tach:Sb:D-dom", "Sb", {"TB": 0.5, "msq_3": 20.0, "msd_3": 30.0}, both,
          "tachyonic sbottom, dominant negative eigenvalue (tan(beta) = 1/2, msq3 = 20, msd3 = 30)")
+    # Tachyons that exist in only one of the two spectra.  The bottom Yukawa coupling entering the sbottom
+    # mixing m_b (A_b - mu tan(beta)) is y_b(tree) / (1 + Delta_b) with resummation (arXiv:0901.2065 Eq.(31),
+    # (103), cited by the library's documentation), Delta_b ~ (2 alpha_s / 3 pi) mu M3 tan(beta) I(..) + EW.
+    #   nonres-only: mu > 0 large, Delta_b ~ +5: mixing exceeds the diagonal only with the tree-level y_b
+    #   res-only:    mu < 0, Delta_b ~ -0.56: mixing exceeds the diagonal only with the resummed y_b
+    # sbottom_window() below evaluates the cited formula and check c16 asserts margins >= 1.2 on both
+    # sides for every base point before trusting these two predictions.  All parameters that enter are
+    # fixed by the realisation; SUSY pole masses are removed (= tree-level masses are used) for SLHA input.
+    nopoles = {k: 0.0 for k in ("MChi_1", "MChi_2", "MChi_3", "MChi_4", "MCha_1", "MCha_2", "MSm_1", "MSm_2", "MSvmL")}
+    common = dict(TB=50.0, M1=200.0, M2=400.0, msu_3=1500.0, Au_3=0.0, Ad_3=0.0, Ae_3=0.0, msl_3=3000.0, mse_3=3000.0)
+    for did, paths, setp in (
+            ("tach:Sb:nonres-only", ("nonres",), dict(common, Mu=5000.0, M3=2000.0, msq_3=700.0, msd_3=700.0)),
+            ("tach:Sb:res-only", ("res",), dict(common, Mu=-300.0, M3=1500.0, msq_3=250.0, msd_3=250.0))):
+        for sty in both:
+            sp = dict(setp)
+            if sty == "slha":
+                sp.update(nopoles)
+            tach(did + ("" if sty == "gm2" else "'"), "Sb", sp, (sty,),
+                 "sbottom tachyonic only %s tan(beta) resummation (Delta_b)" % ("without" if paths == ("nonres",) else "with"))
+            D[-1].paths = paths
     for sec, L, R, sty, small, floor in (("Sm", "msl_2", "mse_2", ("gm2",), 0.3, 100.0),
                                          ("Stau", "msl_3", "mse_3", both, 0.3, 100.0),
                                          ("Sb", "msq_3", "msd_3", both, 0.3, 100.0),
@@ -168,7 +192,71 @@ def thdm_defects():
     D.append(Defect("basis=both'", "structural", dict(MASSES), ("gauge",), "mass and gauge basis both given", special="cli-only"))
     D.append(Defect("basis=neither", "structural", {k: REMOVE for k in MASSES}, ("mass",), "neither basis given", special="cli-only"))
     D.append(Defect("basis=neither'", "structural", {k: REMOVE for k in LAM}, ("gauge",), "neither basis given", special="cli-only"))
+    # README documents two input forms: gauge basis = MINPAR[11..15] (lambda_1..5) and none of the mass-basis
+    # quantities; mass basis = MASS[25,35,36,37] + MINPAR[20] and none of lambda_1..5.  lambda_6, lambda_7,
+    # tan(beta), m12^2, zeta, Yukawa type are listed for BOTH forms and cannot decide.  A file that gives
+    # (non-zero) quantities specific to both forms, or specific to neither, matches no documented form:
+    # undecidable, to be refused.  Partial shapes:
+    import itertools as _it
+    mq = sorted(MASSES)
+    for r in (1, 2):
+        for ks in _it.combinations(mq, r):
+            d = Defect("basis=lambdas+%s" % "+".join(ks), "structural", {k: MASSES[k] for k in ks}, ("gauge",),
+                       "lambda_1..5 given together with %s" % ", ".join(ks), special="cli-only")
+            d.pairs_in_quick = False
+            D.append(d)
+    for k in sorted(LAM):
+        d = Defect("basis=masses+%s" % k, "structural", {k: LAM[k]}, ("mass",),
+                   "all mass-basis quantities given together with %s" % k, special="cli-only")
+        d.pairs_in_quick = False
+        D.append(d)
+    for sty, rem in (("mass", MASSES), ("gauge", LAM)):
+        sp = {k: REMOVE for k in rem}
+        sp.update({"lambda_6": 0.2, "lambda_7": 0.1})
+        d = Defect("basis=lambda67-only" + ("" if sty == "mass" else "'"), "structural", sp, (sty,),
+                   "only lambda_6, lambda_7 (common to both forms) given", special="cli-only")
+        d.pairs_in_quick = False
+        D.append(d)
     return D
+
+
+def _Iabc(a, b, c):
+    a2, b2, c2 = a * a, b * b, c * c
+    if abs(a2 - b2) < 1e-9 * a2:
+        b2 *= 1 + 1e-6
+    if abs(b2 - c2) < 1e-9 * b2:
+        c2 *= 1 + 2e-6
+    if abs(a2 - c2) < 1e-9 * a2:
+        c2 *= 1 + 3e-6
+    return (a2 * b2 * math.log(a2 / b2) + b2 * c2 * math.log(b2 / c2) + c2 * a2 * math.log(c2 / a2)) / (
+        (a2 - b2) * (b2 - c2) * (a2 - c2))
+
+
+def delta_b(p):
+    """Delta_b of arXiv:0901.2065 Eq.(31),(103) for A_t = 0 from the parameter point (soft masses as masses)"""
+    e = math.sqrt(4 * math.pi * p["alpha_MZ"])
+    cw = p["MW"] / p["MZ"]
+    g2, gY = e / math.sqrt(1 - cw * cw), e / cw
+    mu, M1, M2, M3, mL, mR = p["Mu"], p["M1"], p["M2"], p["M3"], abs(p["msq_3"]), abs(p["msd_3"])
+    eps0 = (2 / (3 * math.pi) * p["alpha_s"] * mu * M3 * _Iabc(mL, mR, abs(M3))
+            - 1 / (96 * math.pi ** 2) * gY ** 2 * mu * M1 * (_Iabc(mL, abs(mu), abs(M1)) + 2 * _Iabc(mR, abs(mu), abs(M1)))
+            - 1 / (144 * math.pi ** 2) * gY ** 2 * mu * M1 * _Iabc(mL, mR, abs(M1))
+            - 3 / (32 * math.pi ** 2) * g2 ** 2 * mu * M2 * _Iabc(mL, abs(mu), abs(M2)))
+    return p["TB"] * eps0
+
+
+def sbottom_window(p):
+    """-> (worst-case |mixing| / sqrt(diagonal product) with tree-level y_b [min, max], the same with the
+    resummed y_b [min, max]) for m_b(MZ, DR-bar) in [2.65, 2.95] GeV and Delta_b known to 10 %"""
+    tb, cw2 = p["TB"], (p["MW"] / p["MZ"]) ** 2
+    c2b = (1 - tb * tb) / (1 + tb * tb)
+    sw2 = 1 - cw2
+    diag = math.sqrt((p["msq_3"] ** 2 + 9 + (-0.5 + sw2 / 3) * p["MZ"] ** 2 * c2b)
+                     * (p["msd_3"] ** 2 + 9 - sw2 / 3 * p["MZ"] ** 2 * c2b))
+    db = delta_b(p)
+    xt = [mb * abs(p["Ad_3"] - p["Mu"] * tb) / diag for mb in (2.65, 2.95)]
+    xr = [x / abs(1 + f * db) for x in xt for f in (0.9, 1.1)]
+    return (min(xt), max(xt)), (min(xr), max(xr)), db
 
 
 def compatible(a, b):
